@@ -1,5 +1,6 @@
 """Stream(...).buffer(n): real Buffer.{_start,_run_worker,_finalize,__iter__} + SingleLane + Thread.run/join."""
 from engine_b.scenario import Scenario
+from engine_b.rt import Abort
 from engine_b.stubs import choose, SCounter
 
 
@@ -57,7 +58,9 @@ class BufferScn(Scenario):
                 if self.may_stop and choose(f'stop{len(out)}', 2) == 1:
                     stopped = True
                     break
-        except Exception as e:
+        except Abort:
+            raise
+        except BaseException as e:  # the library's StopRequested is a BaseException
             err = e
         try:
             it.close()
@@ -76,10 +79,13 @@ class BufferScn(Scenario):
                 return f'element delivered past a source failure: {out}'
             if fails(k):
                 kind = choose('failkind', self.fail_kinds) if self.fail_kinds > 1 else 0
-                if kind == 0 and not isinstance(err, SrcError):
-                    return f'source failure at {k} not delivered (err={err!r})'
-                if kind == 0 and err.args != ('src', k):
-                    return f'wrong failure delivered: {err!r}'
+                if kind == 0:
+                    if not isinstance(err, SrcError):
+                        return f'source-failure-not-delivered: at {k} err={err!r}'
+                    if err.args != ('src', k):
+                        return f'wrong-failure-delivered: {err!r}'
+                elif not isinstance(err, StopRequested):
+                    return f'stop-request-not-delivered: at {k} err={err!r}'
             else:
                 if err is not None:
                     return f'unexpected error {err!r}'
